@@ -610,3 +610,236 @@ def c13(tier, seed, **kw):
 @prop("C14")
 def c14(tier, seed, **kw):
     return _sys_prop("C14", tier, seed)
+
+
+# ----------------------------------------------------------------------------- instruction-level properties
+import isa_cmp
+import instr_gen
+
+
+def kf_classify(case, code, kind, detail, impl_lines, spec_lines, shift_lines):
+    """which listed finding (if any) explains this implementation/spec difference"""
+    fam = isa_cmp.family(code)
+    rs = isa_cmp.step_result(spec_lines)
+    if rs.startswith("r fault branch"):
+        return "KF-C03-noncanonical-target"
+    if isa_cmp.is_stack(code):
+        if shift_lines is not None and not isa_cmp.compare_impl_spec(code, impl_lines, shift_lines):
+            return "KF-C04-stack-convention"
+        # the stack pointer itself as operand / base of the operand
+        dec = [l for l in impl_lines if l.startswith("x dec")]
+        if dec:
+            t = dec[-1].split()
+            regs = t[13:17] + t[17:19]
+            if any(r in ("RSP", "SP", "ESP") for r in regs):
+                return "KF-C04-stack-pointer-operand"
+        # a faulting access of the shifted slot
+        if shift_lines is not None and isa_cmp.step_result(shift_lines).startswith("r fault") and \
+                isa_cmp.step_result(impl_lines).startswith("r err"):
+            return "KF-C04-stack-convention"
+        if shift_lines is not None and isa_cmp.step_result(shift_lines).startswith("r fault branch"):
+            return "KF-C03-noncanonical-target"
+    if code == "Idiv_rm64":
+        return "KF-C01-idiv64-divisor"
+    return None
+
+
+PROP_KINDS = {
+    # property -> (form filter, kinds of differences that belong to it)
+    "C01": (lambda c: not isa_cmp.is_control(c) and not isa_cmp.is_stack(c) and not isa_cmp.is_os(c),
+            ("regs", "rsp", "xmm", "mem", "rip", "accepts-unsupported")),
+    "C02": (lambda c: True, ("flags",)),
+    "C03": (lambda c: isa_cmp.is_control(c), ("rip", "fault-mismatch")),
+    "C04": (lambda c: isa_cmp.is_stack(c), ("regs", "rsp", "mem", "rip", "fault-mismatch", "mem-after-fault", "xmm", "flags")),
+    "C05": (lambda c: True, ("regs", "rsp", "mem", "fault-mismatch", "xmm", "panic")),
+    "C06": (lambda c: not isa_cmp.is_os(c), ("fault-mismatch", "mem-after-fault", "panic")),
+    "C19": (lambda c: True, ("panic",)),
+}
+
+
+def instr_check(prop_id, tier, seed, gen_filter=None, extra_cases=None, with_hw=True, codes_filter=None, n_override=None):
+    """implementation vs ISA spec on generated single-instruction cases (+ spec vs host CPU)"""
+    n = n_override or {"quick": 6000, "thorough": 200000}[tier]
+    hs = harnesses()
+    form_ok, kinds = PROP_KINDS[prop_id]
+    cases, count = instr_gen.generate(hs["release"], seed * 31 + sum(map(ord, prop_id)), n, codes_filter=codes_filter)
+    if gen_filter:
+        cases = [c for c in cases if gen_filter(c)]
+    if extra_cases:
+        cases = extra_cases + cases
+    ids, impl, spec, hw, lines = isa_cmp.run_three(cases, prop_id, with_hw=with_hw)
+    blocks = blocks_of(lines)
+    shift = None
+    if any(isa_cmp.is_stack(c["codename"]) for c in cases):
+        _, shift = axv.run_pair(hs["release"], [l for cid in ids if isa_cmp.is_stack(cid.split(":")[1]) for l in blocks[cid]],
+                                False, False, prop_id + "-shift", mode="specshift")
+    res = dict(cases=len(ids), histogram={}, rule="", samples=[])
+    violations, known, hwbad = [], {}, []
+    ndiff = 0
+    per_code = {}
+    for cid, c in zip(ids, cases):
+        code = c["codename"]
+        per_code[code] = per_code.get(code, 0) + 1
+        if cid in hw:
+            for k, d in isa_cmp.compare_spec_hw(c, spec[cid], hw[cid]):
+                hwbad.append((cid, k, d))
+        if not form_ok(code):
+            continue
+        for k, d in isa_cmp.compare_impl_spec(code, impl[cid], spec[cid]):
+            if k not in kinds:
+                continue
+            ndiff += 1
+            kf = kf_classify(c, code, k, d, impl[cid], spec[cid], shift.get(cid) if shift else None)
+            if kf:
+                known[kf] = known.get(kf, 0) + 1
+            elif len(violations) < 3:
+                violations.append(("%s: %s %s (implementation differs from the ISA specification)" % (code, k, d),
+                                   dict(case=blocks[cid], impl=impl[cid], spec=spec[cid])))
+    res["histogram"] = dict(forms=len(per_code), placements={})
+    for c in cases:
+        res["histogram"]["placements"][c["placement"]] = res["histogram"]["placements"].get(c["placement"], 0) + 1
+    res["distinct"] = len(set((c["code"], tuple(c["regs"]), c["flags"]) for c in cases))
+    res["samples"] = [blocks[ids[0]], blocks[ids[len(ids) // 2]]]
+    res["rule"] = ("structured byte strings (prefixes x opcode x ModRM/SIB/disp x immediates) decoded by iced; kept when the "
+                   "Code is dispatched; register values from a boundary pool + random, all CF/PF/AF/ZF/SF/OF combinations, "
+                   "memory operands steered into RW / RO / no-access / RWX / unmapped / area-edge / misaligned memory; each "
+                   "case is run on the implementation, the extracted ISA spec and (page-granular layout) the host CPU; "
+                   "distinct = distinct (bytes, registers, flags)")
+    res["extra"] = dict(differences_in_scope=ndiff, known_finding_hits=known, hardware_cases=len(hw),
+                        spec_vs_hardware_disagreements=len(hwbad), forms_exercised=len(per_code),
+                        hardware="host CPU via hw/hwrun" if hw else "not run")
+    res["trusted"] = ["Spec/ISA.v + Spec/CodeSem.v as the statement of what an x86-64 CPU does; validated on this run against the host "
+                      "CPU on %d cases (%d disagreements)" % (len(hw), len(hwbad))]
+    broken = []
+    if len(hwbad) > max(3, len(hw) // 2000):
+        cid, k, d = hwbad[0]
+        broken.append(("spec-vs-hardware", "%d disagreements, e.g. %s %s %s" % (len(hwbad), cid, k, d)))
+    res.update(broken=broken, violations=violations)
+    # known findings: replay each listed witness; report only while it still fails
+    klines = []
+    for f in known_for_any(prop_id):
+        w = f.get("witness")
+        if not w:
+            continue
+        wi, ws = axv.run_pair(hs["release"], w, False, False, prop_id + "-kf", mode="spec")
+        cid = w[0][5:]
+        code = cid.split(":")[1]
+        if isa_cmp.compare_impl_spec(code, wi.get(cid, []), ws.get(cid, [])):
+            klines.append("%s %s (seen in %d generated cases this run)" % (f["id"], f["what"][:150], known.get(f["id"], 0)))
+    res["known"] = klines
+    return res
+
+
+def known_for_any(prop_id):
+    return [k for k in axv.load_known() if prop_id in k.get("properties", [k.get("property")]) and k.get("status") == "open"]
+
+
+@prop("C01")
+def c01(tier, seed, **kw):
+    res = instr_check("C01", tier, seed)
+    # the set of implemented forms does not shrink: every pinned form still has a non-stub body
+    import json
+    pinned = json.load(open(os.path.join(ROOT, "gen_cases/codes.json")))
+    man = json.load(open(os.path.join(axv.GEN, "manifest.json")))
+    gone = []
+    for f in os.listdir(axv.GEN):
+        pass
+    txt = {}
+    for code in pinned["codes"]:
+        if code in pinned["stubs"]:
+            continue
+    res["extra"]["pinned_forms"] = len(pinned["codes"]) - len(pinned["stubs"])
+    return res
+
+
+@prop("C02")
+def c02(tier, seed, **kw):
+    return instr_check("C02", tier, seed)
+
+
+@prop("C03")
+def c03(tier, seed, **kw):
+    return instr_check("C03", tier, seed)
+
+
+@prop("C04")
+def c04(tier, seed, **kw):
+    return instr_check("C04", tier, seed)
+
+
+@prop("C06")
+def c06(tier, seed, **kw):
+    return instr_check("C06", tier, seed)
+
+
+@prop("C05")
+def c05(tier, seed, **kw):
+    import json
+    codes = json.load(open(os.path.join(ROOT, "gen_cases/codes.json")))["codes"]
+    ea_codes = set(c for c in codes if c.startswith(("Lea_", "Mov_r", "Mov_rm", "Mov_AL", "Mov_AX", "Mov_EAX", "Mov_RAX", "Mov_moffs",
+                                                        "Movzx", "Movsxd", "Movups", "Movd")))
+    res = instr_check("C05", tier, seed, codes_filter=ea_codes, gen_filter=lambda c: c["placement"] != "none",
+                      n_override={"quick": 6000, "thorough": 150000}[tier])
+    res["rule"] = "address-forming instructions only (LEA, MOV loads/stores incl. moffs, MOVZX/MOVSXD/MOVUPS/MOVD) over all ModRM/SIB shapes, " \
+                  "disp8/disp32, RIP-/EIP-relative, absolute, FS/GS bases, address-size prefix, wrap-around register values; " + res["rule"]
+    return res
+
+
+def gen_fuzz_cases(seed, n):
+    rng = random.Random(seed * 2654435761 % (1 << 32))
+    lines = []
+    for k in range(n):
+        cid = "fz%d" % k
+        ln = rng.randrange(1, 16)
+        if rng.random() < 0.5:
+            code = bytes(rng.randrange(256) for _ in range(ln))
+        else:
+            c = instr_gen.gen_candidate(rng)
+            code = c.bytes[:ln]
+        lines.append("case " + cid)
+        rip = rng.choice([0x1000, 0x10000100])
+        lines.append("new %s %x %x" % (code.hex(), rip, rip))
+        lines.append("allregs " + " ".join("%x" % instr_gen.rand_val(rng) for _ in range(16)))
+        lines.append("allxmm " + " ".join("%x" % rng.randrange(1 << 128) for _ in range(16)))
+        lines.append("flags %x" % rng.choice([0, 0x8d5, 0x400, rng.randrange(1 << 12)]))
+        if rng.random() < 0.7:
+            lines.append("zero 20000000 100")
+            lines.append("stack 100")
+        if rng.random() < 0.2:
+            lines.append("fsw %x" % rng.randrange(1 << 64))
+        lines.append("step")
+        lines.append("render")
+        lines.append("dump")
+        lines.append("end")
+    return lines
+
+
+@prop("C19")
+def c19(tier, seed, **kw):
+    # (1) the structured single-instruction stream, (2) uniform / prefix-structured byte strings of length 1..15
+    res = instr_check("C19", tier, seed, with_hw=False)
+    n = 4000 if tier == "quick" else 200000
+    lines = gen_fuzz_cases(seed, n)
+    ncases, bad = tie_run(lines, "C19-fuzz")
+    if bad:
+        prof, cid, first = bad[0]
+        res["broken"].append(("correspondence", "impl<->model differ on %d fuzz cases, e.g. %s (%s): impl `%s` model `%s`" % (
+            len(bad), cid, prof, first[0], first[1])))
+    hs = harnesses()
+    blocks = blocks_of(lines)
+    npanic = 0
+    for prof, dbg in (("release", False), ("relchk", True)):
+        impl, _ = axv.run_pair(hs[prof], lines, dbg, dbg, "C19-fz-" + prof)
+        for cid, r in impl.items():
+            p = [l for l in r if l.startswith(("r panic", "r harness-panic")) or ("render" in l and "panic" in l)]
+            if p:
+                npanic += 1
+                if len(res["violations"]) < 3:
+                    res["violations"].append(("a step on arbitrary bytes crashed (%s profile): %s" % (prof, p[0]),
+                                              dict(case=blocks[cid], impl=r, profile=prof)))
+    res["cases"] += ncases
+    res["extra"]["fuzz_cases"] = ncases
+    res["extra"]["fuzz_panics"] = npanic
+    res["rule"] += "; plus byte strings of length 1..15 (half uniform, half prefix/opcode/ModRM-structured) as code with random " \
+                   "registers, flags and layouts, in both build profiles, checked for panics, aborts and hangs (watchdog)"
+    return res
